@@ -81,6 +81,12 @@ func makeRef(p pageURLParts, form, tok, ext string) (ref, want string) {
 		return "//cdn.other.net/c/" + name, p.scheme + "://cdn.other.net/c/" + name
 	case "query":
 		return "?f=" + name, origin + p.path() + "?f=" + name
+	case "root-embedded-url":
+		return "/share?u=http://other.example/" + name, origin + "/share?u=http://other.example/" + name
+	case "path-embedded-url":
+		return "arc/https://other.example/" + name, origin + p.dir(0) + "arc/https://other.example/" + name
+	case "comma-path":
+		return "m/w_400,h_300/" + name, origin + p.dir(0) + "m/w_400,h_300/" + name
 	case "abs-same":
 		v := origin + "/abs/" + name
 		return v, v
@@ -126,7 +132,7 @@ func genC06(t *rapid.T) *Case {
 	p.Core = append(append([]wc{}, p.Core...), media...)
 	p.Top = append(append([]wc{}, p.Top...), media...)
 	p.URL = func(g *G, kind string) string {
-		rel := []string{"path-rel", "plain-rel", "dot", "root", "scheme-rel", "query"}
+		rel := []string{"path-rel", "plain-rel", "dot", "root", "scheme-rel", "query", "root-embedded-url", "path-embedded-url", "comma-path"}
 		if len(pp.dirs) >= 1 {
 			rel = append(rel, "dotdot")
 		}
@@ -171,12 +177,38 @@ func genC06(t *rapid.T) *Case {
 	return c
 }
 
+// srcsetCandidates parses a srcset attribute the way the HTML specification does: a URL is a run of
+// non-white-space characters; trailing commas end the candidate; otherwise a descriptor runs up to
+// the next comma. (URLs may contain commas in the middle.)
 func srcsetCandidates(v string) []string {
 	var out []string
-	for _, part := range strings.Split(v, ",") {
-		f := strings.Fields(part)
-		if len(f) > 0 {
-			out = append(out, f[0])
+	i := 0
+	isSpace := func(c byte) bool { return c == ' ' || c == '\t' || c == '\n' || c == '\r' || c == '\f' }
+	for i < len(v) {
+		for i < len(v) && (isSpace(v[i]) || v[i] == ',') {
+			i++
+		}
+		if i >= len(v) {
+			break
+		}
+		j := i
+		for j < len(v) && !isSpace(v[j]) {
+			j++
+		}
+		u := v[i:j]
+		if strings.HasSuffix(u, ",") {
+			u = strings.TrimRight(u, ",")
+			i = j
+		} else {
+			// descriptor: up to the next comma
+			k := j
+			for k < len(v) && v[k] != ',' {
+				k++
+			}
+			i = k
+		}
+		if u != "" {
+			out = append(out, u)
 		}
 	}
 	return out
@@ -200,7 +232,7 @@ func checkC06(c *Case) (*Violation, caseInfo) {
 	carriers := map[string]bool{}
 	relForm := func(f string) bool {
 		switch f {
-		case "path-rel", "plain-rel", "dot", "dotdot", "dotdot2", "root", "scheme-rel", "query":
+		case "path-rel", "plain-rel", "dot", "dotdot", "dotdot2", "root", "scheme-rel", "query", "root-embedded-url", "path-embedded-url", "comma-path":
 			return true
 		}
 		return false
